@@ -310,6 +310,10 @@ func init() {
 				// same encoding, different Go type: structural decoding is not modelled
 				panic(unmodelled{fmt.Sprintf("%s round trip from %s into %s at %s", enc, m.t, ptrT.Elem(), fr.where())})
 			}
+			// an empty input is never a document (both decoders report an error: "unexpected end of JSON input" / EOF)
+			if sl, ok := a[0].(Slice); ok && len(sl.A) == 0 {
+				return p.makeError(fr, enc+": unexpected end of input", nil)
+			}
 			// bytes that came from outside: either malformed, or an arbitrary value of the target type.
 			// Types with their own decoder (policy documents) are decoded by the harness-side document model.
 			if hook := p.UnmarshalHook; hook != nil {
